@@ -102,38 +102,52 @@ Definition step1 (load : string -> option tableR) (s : @selector R)
 Definition step2 (data : list (string * seriesR)) (tb : @oframe R) (var : string) : option (@oframe R) :=
   match dict_get var data with Some g => Some (@oframe_set R ROps var g tb) | None => None end.
 
-Definition main_with (load : string -> option tableR) (s : @selector R) (vars : list string) :=
+(** the second loop, in the two forms the translator accepts:
+    `for var in variables: table[var] = data[var]`   and   `for var, column in data.items(): table[var] = column` *)
+Definition step2i (tb : @oframe R) (kv : string * seriesR) : option (@oframe R) :=
+  Some (@oframe_set R ROps (fst kv) (snd kv) tb).
+Definition L2_vars (vars : list string) (data : list (string * seriesR)) (xa : list R) :=
+  py_for (step2 data) vars (oframe_new vars xa).
+Definition L2_items (vars : list string) (data : list (string * seriesR)) (xa : list R) :=
+  py_for step2i (dict_items data) (oframe_new vars xa).
+
+Definition main_gen (L2 : list (string * seriesR) -> list R -> option (@oframe R))
+  (load : string -> option tableR) (s : @selector R) (vars : list string) :=
   match py_for (step1 load s) vars (dict_empty, None, None) with
-  | Some (data, Some xa, _) => py_for (step2 data) vars (oframe_new vars xa)
+  | Some (data, Some xa, _) => L2 data xa
   | _ => None
   end.
+Definition main_with load s vars := main_gen (L2_vars vars) load s vars.
 
-(** the generated main, for each of the three ways the options can be given *)
+(** the generated main, for each of the three ways the options can be given; the second loop in either form *)
+Ltac second_loop d x vars :=
+  first
+    [ left; unfold L2_vars;
+      rewrite (py_for_ext _ (step2 d)) by (intros tb v; unfold step2; destruct (dict_get v d); reflexivity);
+      destruct (py_for (step2 d) vars (oframe_new vars x)); reflexivity
+    | right; unfold L2_items;
+      rewrite (py_for_ext _ step2i) by (intros tb kv; reflexivity);
+      destruct (py_for step2i (dict_items d) (oframe_new vars x)); reflexivity ].
+
+Ltac main_shape load SEL vars :=
+  unfold gx_main; cbv zeta;
+  rewrite (py_for_ext _ (step1 load SEL))
+    by (intros [[d x] y] v; unfold step1; destruct (load v) as [tb|]; [|reflexivity];
+        cbv zeta; rewrite nearest_index_model; reflexivity);
+  unfold main_with, main_gen;
+  let d := fresh "d" in let x := fresh "x" in let y := fresh "y" in
+  destruct (py_for (step1 load SEL) vars (dict_empty, None, None)) as [[[d [x|]] y]|];
+  [ cbv zeta; second_loop d x vars | left; reflexivity | left; reflexivity ].
+
 Lemma gx_main_T : forall load vars t p,
-  @gx_main R ROps load vars (Some t) p = main_with load (AtT t) vars.
-Proof.
-  intros. unfold gx_main, main_with. cbv zeta.
-  rewrite (py_for_ext _ (step1 load (AtT t))).
-  2:{ intros [[d x] y] v. unfold step1. destruct (load v) as [tb|]; [|reflexivity].
-      cbv zeta. rewrite nearest_index_model. reflexivity. }
-  destruct (py_for (step1 load (AtT t)) vars (dict_empty, None, None)) as [[[d [x|]] y]|]; try reflexivity.
-  rewrite (py_for_ext _ (step2 d)).
-  2:{ intros tb v. unfold step2. destruct (dict_get v d); reflexivity. }
-  destruct (py_for (step2 d) vars (oframe_new vars x)); reflexivity.
-Qed.
+  @gx_main R ROps load vars (Some t) p = main_with load (AtT t) vars \/
+  @gx_main R ROps load vars (Some t) p = main_gen (L2_items vars) load (AtT t) vars.
+Proof. intros. main_shape load (AtT t) vars. Qed.
 
 Lemma gx_main_P : forall load vars p,
-  @gx_main R ROps load vars None (Some p) = main_with load (AtP p) vars.
-Proof.
-  intros. unfold gx_main, main_with. cbv zeta.
-  rewrite (py_for_ext _ (step1 load (AtP p))).
-  2:{ intros [[d x] y] v. unfold step1. destruct (load v) as [tb|]; [|reflexivity].
-      cbv zeta. rewrite nearest_index_model. reflexivity. }
-  destruct (py_for (step1 load (AtP p)) vars (dict_empty, None, None)) as [[[d [x|]] y]|]; try reflexivity.
-  rewrite (py_for_ext _ (step2 d)).
-  2:{ intros tb v. unfold step2. destruct (dict_get v d); reflexivity. }
-  destruct (py_for (step2 d) vars (oframe_new vars x)); reflexivity.
-Qed.
+  @gx_main R ROps load vars None (Some p) = main_with load (AtP p) vars \/
+  @gx_main R ROps load vars None (Some p) = main_gen (L2_items vars) load (AtP p) vars.
+Proof. intros. main_shape load (AtP p) vars. Qed.
 
 Lemma gx_main_neither : forall load vars, @gx_main R ROps load vars None None = None.
 Proof.
@@ -249,7 +263,7 @@ Section Loops.
     main_with load s vars =
     match load_all load vars with Some tabs => Some (@extract R ROps s tabs) | None => None end.
   Proof.
-    intros vars ND Hne. unfold main_with.
+    intros vars ND Hne. unfold main_with, main_gen, L2_vars.
     destruct (load_all load vars) as [tabs|] eqn:HL.
     - rewrite (loop1_some vars tabs dict_empty None None HL) by exact ND.
       pose proof (load_all_names vars tabs HL) as Hn.
@@ -271,6 +285,36 @@ Section Loops.
         rewrite map_ext with (g := fst) in Hin by reflexivity. exact Hin.
     - rewrite loop1_none by exact HL. reflexivity.
   Qed.
+
+  (** iterating over the items of the dict filled in request order = iterating over the request (distinct names) *)
+  Lemma items_as_vars : forall (x : list R) (pre d : list (string * seriesR)) (tb : @oframe R),
+    NoDup (map fst (pre ++ d)) ->
+    py_for step2i d tb = py_for (step2 (pre ++ d)) (map fst d) tb.
+  Proof.
+    intros x pre d. revert pre. induction d as [|[k v] d IH]; intros pre tb ND; [reflexivity|].
+    cbn [map fst py_for]. unfold step2 at 1, step2i at 1. cbn [fst snd].
+    rewrite dict_get_app_hit.
+    - replace (pre ++ (k, v) :: d) with ((pre ++ [(k, v)]) ++ d) by (rewrite <- app_assoc; reflexivity).
+      apply IH. rewrite <- app_assoc. exact ND.
+    - rewrite map_app in ND. cbn [map fst] in ND. apply NoDup_remove_2 in ND.
+      intro Hin. apply ND. apply in_or_app. left. exact Hin.
+  Qed.
+
+  Lemma main_items_extract : forall vars, NoDup vars -> vars <> [] ->
+    main_gen (L2_items vars) load s vars =
+    match load_all load vars with Some tabs => Some (@extract R ROps s tabs) | None => None end.
+  Proof.
+    intros vars ND Hne. rewrite <- (main_with_extract vars ND Hne). unfold main_with, main_gen.
+    destruct (load_all load vars) as [tabs|] eqn:HL.
+    - rewrite (loop1_some vars tabs dict_empty None None HL) by exact ND.
+      pose proof (load_all_names vars tabs HL) as Hn.
+      destruct (rev tabs) as [|[vl tl] q]; [reflexivity|]. cbn [app dict_empty].
+      unfold L2_items, L2_vars, dict_items.
+      rewrite (items_as_vars (fst (@select R ROps s tl)) [] (map ser tabs)).
+      + cbn [app]. rewrite map_map. cbn [fst]. rewrite (map_ext _ fst) by reflexivity. rewrite Hn. reflexivity.
+      + cbn [app]. rewrite map_map. cbn [fst]. rewrite (map_ext _ fst) by reflexivity. rewrite Hn. exact ND.
+    - rewrite loop1_none by exact HL. reflexivity.
+  Qed.
 End Loops.
 
 (* ---------------------------------------------------------------------------------------------- *)
@@ -281,8 +325,10 @@ Proof.
   destruct vars as [|v r].
   - destruct T as [t|]; [|destruct P as [p|]]; reflexivity.
   - destruct T as [t|]; [|destruct P as [p|]]; cbn [sel_of].
-    + rewrite gx_main_T. apply main_with_extract; [exact ND | discriminate].
-    + rewrite gx_main_P. apply main_with_extract; [exact ND | discriminate].
+    + destruct (gx_main_T load (v :: r) t P) as [-> | ->];
+        [apply main_with_extract | apply main_items_extract]; first [exact ND | discriminate].
+    + destruct (gx_main_P load (v :: r) p) as [-> | ->];
+        [apply main_with_extract | apply main_items_extract]; first [exact ND | discriminate].
     + rewrite gx_main_neither. destruct (load_all load (v :: r)); reflexivity.
 Qed.
 
